@@ -126,11 +126,13 @@ theorem moveE_sound (vsz : Loc → Nat) {E : Rel} {rP rQ : Loc → Val} (hE : Ho
 
 theorem twinMove_sound {E : Rel} {rP rQ : Loc → Val} (hE : Holds E rP rQ) (dQ sQ dP sP : Loc)
     (hs : (sQ, sP) ∈ E) :
-    Holds ((dQ, dP) :: kill E [dQ] [dP]) (upd rP dP (rP sP)) (upd rQ dQ (rQ sQ)) := by
+    Holds (twinMoveE E dQ dP sP) (upd rP dP (rP sP)) (upd rQ dQ (rQ sQ)) := by
   intro l v hm
-  simp only [List.mem_cons, Prod.mk.injEq] at hm
-  rcases hm with ⟨rfl, rfl⟩ | hm
+  simp only [twinMoveE, List.mem_cons, Prod.mk.injEq, List.mem_append, List.mem_map, List.mem_filter, Bool.and_eq_true,
+    bne_iff_ne, ne_eq, beq_iff_eq] at hm
+  rcases hm with ⟨rfl, rfl⟩ | ⟨x, ⟨hx, hx1, hx2⟩, rfl, rfl⟩ | hm
   · rw [upd_same, upd_same]; exact hE _ _ hs
+  · rw [upd_same, upd_other _ _ hx1, ← hx2]; exact hE _ _ hx
   · obtain ⟨hin, hl, hv⟩ := mem_kill hm
     simp only [List.mem_singleton] at hl hv
     rw [upd_other _ _ hl, upd_other _ _ hv]; exact hE _ _ hin
